@@ -39,6 +39,11 @@ class PrepareSimPass( BasePass ):
       raise AttributeError( "Please rename the attribute top.sim_reset")
     if hasattr(top, "print_line_trace"):
       raise AttributeError( "Please modify the attribute top.print_line_trace")
+    # the other functions this pass attaches to the top component
+    for name in ( "sim_tick", "sim_eval_combinational", "sim_cycle_count",
+                  "lock_in_simulation", "unlock_simulation" ):
+      if name in top.__dict__:
+        raise AttributeError( f"Please rename the attribute top.{name}")
     if not hasattr( top, "_sched" ):
       raise PassOrderError( "_sched" )
     if not hasattr( top._sched, "update_schedule" ):
